@@ -93,6 +93,11 @@ def readByDimIndex (codec : Option Codec) (o : SegObj) (dims : List (List Nat)) 
     the source image that shows the tile, looked up by position) -/
 def relabelSources (σ : Nat → Nat) (o : SegObj) : SegObj := { o with keys := o.keys.map fun k => (k.1, σ k.2) }
 
+/-- ... when the source image lacks some tiles: `σ p = none` means the frame of tile `p` names no source frame; the table is
+    usable for reads by source frame only if every stored frame names one -/
+def recordedSources (σ : Nat → Option Nat) (o : SegObj) : Option SegObj :=
+  (mapO (fun k : Option Nat × Nat => (σ k.2).map fun f => (k.1, f)) o.keys).map fun ks => { o with keys := ks }
+
 /-! ## tiles of a total pixel matrix -/
 
 /-- where the pixels of tile (k, l) of the grid come from: row-major positions in the `R × C` matrix, `none` = padding
